@@ -702,3 +702,13 @@ func statefulModels() []string {
 	}
 	return res
 }
+
+// widthClassFor: for models whose state width depends on a parameter (GR4J, Lag) half of the
+// multi-cell cases use cells of different widths (class 0: rows are padded to the widest cell),
+// the others one common width class.
+func widthClassFor(r *core.Rand, cells int) int {
+	if cells > 1 && r.Bool(0.5) {
+		return 0
+	}
+	return 1 + r.Intn(13)
+}
